@@ -44,7 +44,9 @@ CONSTANTS
     Rels         \* relations exercised: subset of RelAll
 
 RelAll == {"none", "shift", "rescale", "scale", "negscale", "premult", "coslat_as_weights",
-           "permute_features", "permute_samples", "transpose"}
+           "permute_features", "permute_samples", "transpose",
+           \* C10: another model configuration that must give the same result
+           "id_mca_self", "id_complex_of_real", "id_eeof_single_embedding", "id_sparse_no_penalty"}
 
 VARIABLES cfg, pred, phase
 
@@ -148,6 +150,9 @@ Admissible(c) ==
     /\ c.rel = "premult" => (c.wp # "ones" /\ ~c.std)   \* standardising pre-multiplied data would cancel the weights
     /\ c.rel = "coslat_as_weights" => (c.lp \notin {"none"} /\ c.wp = "ones")
     /\ c.rel \in {"permute_features", "transpose", "permute_samples"} => ~IsFrac(c)
+    /\ c.rel \in {"id_mca_self", "id_complex_of_real", "id_eeof_single_embedding", "id_sparse_no_penalty"} =>
+          (~IsFrac(c) /\ c.dtype = "real" /\ c.cexp = 0 /\ c.center)
+    /\ c.rel \in {"id_eeof_single_embedding", "id_sparse_no_penalty"} => c.wp = "ones"
     /\ (c.lp # "none") => P(c) <= 6
     /\ c.rel \in {"scale", "negscale"} => (c.cexp = 0 /\ (c.std => \A j \in 1..P(c) : c.s2[j] > 0))
     /\ ~FullProduct =>
